@@ -1,7 +1,7 @@
 //go:build verif
 
 // C10 harness, part 4: crash experiments.  One save of a history is replayed in a child process
-// (this same test binary, TestVerifC10Child) under strace; the child is killed at the entry of
+// (this same test binary, see init() below) under strace; the child is killed at the entry of
 // the N-th invocation of each file system call, or a write is failed with ENOSPC; temp/cache files
 // are truncated to emulate a write that stopped after k bytes.  After each experiment NewCache on
 // the directory must succeed and the cache must equal one of the snapshots the uninterrupted
@@ -31,11 +31,13 @@ type childParams struct {
 	RefDir string `json:"refdir,omitempty"` // reference run: copy the cache file here after every op
 }
 
-// TestVerifC10Child replays one save group on an existing state directory.
-func TestVerifC10Child(t *testing.T) {
+// The child replays one save group on an existing state directory.  It runs from init(), i.e. on
+// the main goroutine locked to the initial thread, so that strace's per-thread "when=N" counters
+// see the same sequence of system calls in every run.
+func init() {
 	pf := os.Getenv("VERIF_C10_CHILD")
 	if pf == "" {
-		t.Skip("not a child")
+		return
 	}
 	runtime.LockOSThread()
 	data, err := os.ReadFile(pf)
@@ -71,6 +73,7 @@ func TestVerifC10Child(t *testing.T) {
 		snap(i + 1)
 	}
 	status(fmt.Sprintf("done saveerrs=%d", saveErrs))
+	os.Exit(0)
 }
 
 // ---- strace log parsing
@@ -97,6 +100,12 @@ const traceSet = "openat,write,close,fsync,fdatasync,rename,renameat,renameat2,u
 // parseTrace returns the events of the thread that executed the ops (the one with the markers).
 func parseTrace(prefix string) ([]sysEv, bool) {
 	files, _ := filepath.Glob(prefix + ".*")
+	anyKilled := false
+	for _, fn := range files {
+		if data, err := os.ReadFile(fn); err == nil && strings.Contains(string(data), "killed by SIGKILL") {
+			anyKilled = true
+		}
+	}
 	for _, fn := range files {
 		data, err := os.ReadFile(fn)
 		if err != nil || !strings.Contains(string(data), ".verif-begin-") {
@@ -130,9 +139,9 @@ func parseTrace(prefix string) ([]sysEv, bool) {
 			counts[m[1]]++
 			evs = append(evs, sysEv{name: m[1], line: line, nth: counts[m[1]], window: window, kind: kind})
 		}
-		return evs, killed
+		return evs, killed || anyKilled
 	}
-	return nil, false
+	return nil, anyKilled
 }
 
 // skeleton extracts the write-side operations on files under dir from the events of one window.
@@ -245,7 +254,7 @@ func runChild(work string, p childParams, straceArgs []string, trace bool) child
 	data, _ := json.Marshal(&p)
 	os.WriteFile(pf, data, 0o644)
 	var cmd *exec.Cmd
-	args := []string{"-test.run", "^TestVerifC10Child$"}
+	args := []string{"-test.run", "^$"}
 	if trace {
 		sa := append([]string{"-ff", "-o", filepath.Join(work, "trace"), "-s", "0", "-y", "-e", "trace=" + traceSet}, straceArgs...)
 		sa = append(sa, os.Args[0])
@@ -288,7 +297,7 @@ type crashRecord struct {
 	Syscall  string   `json:"syscall,omitempty"`
 	Nth      int      `json:"nth,omitempty"`
 	Window   string   `json:"window,omitempty"` // op kind during which the fault hit, "" outside
-	Offset   int      `json:"offset,omitempty"`
+	Offset   int      `json:"offset"`
 	Target   string   `json:"target,omitempty"`
 	Killed   bool     `json:"killed"`
 	Status   string   `json:"status,omitempty"`
@@ -529,7 +538,7 @@ func TestVerifC10Crash(t *testing.T) {
 					copyDir(prevDir, w)
 					tr := filepath.Join(w, ".ref")
 					os.MkdirAll(tr, 0o700)
-					cr := runChild(tr, childParams{Dir: w, Ops: ops}, []string{"-e", fmt.Sprintf("inject=%s:signal=KILL:when=%d", p.name, p.nth)}, true)
+					cr := runChild(tr, childParams{Dir: w, Ops: ops, RefDir: tr}, []string{"-e", fmt.Sprintf("inject=%s:signal=KILL:when=%d", p.name, p.nth)}, true)
 					rec := &crashRecord{History: h, Save: s, Kind: "kill", Syscall: p.name, Nth: p.nth, Window: p.window, Killed: cr.killed, Status: cr.status}
 					if !cr.killed && !strings.HasPrefix(cr.status, "done") {
 						rec.Detail = "child neither killed nor finished: " + cr.err
@@ -561,7 +570,7 @@ func TestVerifC10Crash(t *testing.T) {
 						copyDir(prevDir, w)
 						tr := filepath.Join(w, ".ref")
 						os.MkdirAll(tr, 0o700)
-						cr := runChild(tr, childParams{Dir: w, Ops: ops}, []string{"-e", fmt.Sprintf("inject=write:error=ENOSPC:when=%d", n)}, true)
+						cr := runChild(tr, childParams{Dir: w, Ops: ops, RefDir: tr}, []string{"-e", fmt.Sprintf("inject=write:error=ENOSPC:when=%d", n)}, true)
 						rec := &crashRecord{History: h, Save: s, Kind: "enospc", Syscall: "write", Nth: n, Killed: cr.killed, Status: cr.status}
 						judge(w, legit, probes, keys, rec)
 						if rec.Sig != "" {
